@@ -177,8 +177,10 @@ def r3(ctx, prog):
         if rl.is_call(h_, j, "_mi_page_ptr_unalign"):
             return True
         if n["k"] == "ConditionalOperator":
-            if rl.is_call(h_, h_.strip(n["cond"]), "mi_page_has_aligned"):
-                return block_ok(h_, n["then"], site, depth) and (block_ok(h_, n["else"], site, depth) or rl.var_of(h_, n["else"]) in h_.pids)
+            t = rl._accessor_truth(h_, "mi_page_has_aligned", n["cond"], True)
+            if t is not None:
+                yes, no = (n["then"], n["else"]) if t else (n["else"], n["then"])
+                return block_ok(h_, yes, site, depth) and (block_ok(h_, no, site, depth) or rl.var_of(h_, no) in h_.pids)
             return block_ok(h_, n["then"], site, depth) and block_ok(h_, n["else"], site, depth)
         if n["k"] == "DeclRefExpr":
             if n["d"] in h_.pids:
